@@ -5,6 +5,8 @@ SIM = "deterministic simulation (seeded tape, fault injection), oracle = executa
 ENGINES = [
     {"name": "dbworld", "path": "sim/dbworld", "serves_properties": ["C01", "C02", "C03", "C05", "C06", "C08", "C09", "C14"],
      "kind_free_text": "in-process simulation of the server side: real db/acl/audit/server/client code, scripted tailnet identity, fault-injecting audit sink, in-process HTTP transport with request corruption, clean restarts; every choice from one seeded tape"},
+    {"name": "storeworld", "path": "sim/storeworld", "serves_properties": ["C10", "C11", "C12", "C13", "C15", "C16", "C19"],
+     "kind_free_text": "in-process simulation of the client side inside a testing/synctest bubble: real Store/Updater/watcher/caches/FileClient, scripted StoreClient with per-(name,request) fault scripts, recording fault-injecting cache, PollTicker/TimeNow seams, baton scheduler at every mutex acquisition and service request"},
     {"name": "kernel", "path": "sim/kernel", "serves_properties": [],
      "kind_free_text": "tape (single PRNG), baton scheduler over park points inside a testing/synctest bubble (virtual clock), canonical event log, delta-debugging shrinker"},
 ]
@@ -38,6 +40,12 @@ CLAIMS = {
     "C08": dict(engine="dbworld", design_ref="5/C08", technique=SIM + "; request corruption and identity faults as injected message faults",
                 text="Real Client -> in-process transport -> real handlers -> real DB. A drawn subset of requests is damaged (method, content type, browser header, truncated / non-JSON / wrongly typed bodies, unknown endpoint) or meets an identity fault (lookup error, anonymous node, malformed grant, empty grants, legacy capability name); each is classified ill-formed / well-formed / unspecified by the generator. Ill-formed: non-2xx, file bytes and state unchanged, zero audit records, no marker bytes. Accepted: exact status map and exact result vs. the model with the rules from the scripted WhoIs answer; audit principal equals that identity.",
                 note="no sockets; net/http's own request parsing is bypassed (requests are handed to mux.ServeHTTP)"),
+    "C10": dict(engine="storeworld", design_ref="5/C10", technique="deterministic simulation under a virtual clock (testing/synctest) with a scripted, fault-injecting service and cache",
+                text="NewStore run as a simulated task against a per-(name,attempt) script of failures, hangs and latencies, every cache kind, optional deadline, stub or file-backed client, and misconfigurations; oracles on the request log and the virtual return time: values come from the cache or were really served, no request before return with a complete cache, no re-fetch of an obtained secret, gaps between rounds <= 10 s, error within 1 s of the context's end, immediate failure with a file-backed client, misconfiguration = immediate error.",
+                note="service stub honours contexts; time only passes while no task is runnable, so scheduler stalls cannot masquerade as slowness"),
+    "C16": dict(engine="storeworld", design_ref="5/C16", technique="deterministic simulation under a virtual clock with baton-scheduled concurrent callers and a service that answers, fails, is slow or hangs forever",
+                text="Concurrent callers through all four entry points with deadlines, scripted cancellations or no deadline; oracles: gate (panic / error, zero requests), at most one in-flight lookup request per name, every successful caller's handle reads served bytes, failed lookups install nothing, no automatic retry (request counts bounded by callers plus aborts by foreign contexts), five-minute safety limit on every request led by a no-deadline caller and prompt return afterwards, no failure by proxy, and the looked-up name is polled and cached afterwards.",
+                note="a caller that joined another caller's flight is governed by that flight's context (observed: it can outlive its own deadline; not part of the statement)"),
     "C14": dict(engine="dbworld", design_ref="5/C14", technique="deterministic simulation: seeded baton schedules over lock/seam park points, histories decided by porcupine (linearizability) against the map model; race detector on free-running replicas of the workload",
                 text="Small concurrent histories from 2-4 clients on shared names, every interleaving decision (which parked goroutine proceeds at each mutex acquisition, audit write, identity lookup, transport hop) drawn from the tape; invoke/return stamped with a global sequence number; porcupine decides each history exactly against the sequential model with the final state appended. A second stage runs the same workloads unscheduled under -race.",
                 note="park points are lock acquisitions and seams: code between two park points runs atomically in the baton stage; data races are the race stage's job"),
